@@ -340,11 +340,13 @@ package strategy
 //@   ensures[C03] admit_iff: forall i int :: firstMatch(s, ctx, i) ==> (ret1 <==> (old(s.busy) < old(s.limit) || old(s.partitions[i].busy) < old(s.partitions[i].limit)))
 //@   ensures[C03,C02] charge_first: forall i int :: firstMatch(s, ctx, i) ==> (ret1 ==> s.busy == old(s.busy) + 1 && s.partitions[i].busy == old(s.partitions[i].busy) + 1 && (forall q *strategy.PredicatePartition :: q != s.partitions[i] ==> q.busy == old(q.busy)))
 //@   ensures[C03,C02] refuse: !ret1 ==> s.busy == old(s.busy) && (forall q *strategy.PredicatePartition :: q.busy == old(q.busy))
+//@   ensures[C03,C02] granted_has_a_first_match: ret1 ==> exists i int :: firstMatch(s, ctx, i)
 //@   ensures[C03,C05] limits_unchanged: s.limit == old(s.limit) && forall q *strategy.PredicatePartition :: q.limit == old(q.limit)
 //@   ensures[C02] token_shape: dyntype(ret0, "*core.StaticStrategyToken") && as(ret0, "*core.StaticStrategyToken").acquired == ret1
 //@   ensures[C02,C03] token_release: forall i int :: firstMatch(s, ctx, i) ==> (ret1 ==> isfunc(as(ret0, "*core.StaticStrategyToken").releaseFunc, "(*strategy.PredicatePartitionStrategy).releasePartition$1") && *captured(as(ret0, "*core.StaticStrategyToken").releaseFunc, "(*strategy.PredicatePartitionStrategy).releasePartition$1", 0) == s && *captured(as(ret0, "*core.StaticStrategyToken").releaseFunc, "(*strategy.PredicatePartitionStrategy).releasePartition$1", 1) == s.partitions[i])
 //@   ensures[C20] token_count: as(ret0, "*core.StaticStrategyToken").inFlightCount == int(s.busy)
 //@   owns[C17]
+//@   assigns s.busy, all strategy.PredicatePartition.busy
 
 //@ func (*PredicatePartitionStrategy).releasePartition
 //@   ensures[C02,C03] closure: isfunc(result, "(*strategy.PredicatePartitionStrategy).releasePartition$1") && *captured(result, "(*strategy.PredicatePartitionStrategy).releasePartition$1", 0) == s && *captured(result, "(*strategy.PredicatePartitionStrategy).releasePartition$1", 1) == partition
@@ -393,20 +395,24 @@ package strategy
 //@   requires fits_no_overflow: limit <= MaxInt32
 //@   ensures[C01,C19] fresh_gate: fresh(result) && result.limit == max(1, limit) && result.inFlight == 0
 //@   establishes[C01,C02] result
+//@   assigns nothing
 //@ func NewPreciseStrategyWithMetricRegistry
 //@   requires fits_no_overflow: limit <= MaxInt32 && registry != nil
 //@   ensures[C01,C19] fresh_gate: fresh(result) && result.limit == max(1, limit) && result.inFlight == 0 && result.metricListener != nil
 //@   ensures[C20] limit_gauge: ncalls("core.MetricRegistry.RegisterGauge") == 1 && callarg("core.MetricRegistry.RegisterGauge", 0, 0) == "limit" && isfunc(*captured(callarg("core.MetricRegistry.RegisterGauge", 0, 1), "core.NewIntMetricSupplierWrapper$1", 0), "(*strategy.PreciseStrategy).GetLimit$bound") && captured(*captured(callarg("core.MetricRegistry.RegisterGauge", 0, 1), "core.NewIntMetricSupplierWrapper$1", 0), "(*strategy.PreciseStrategy).GetLimit$bound", 0) == result
 //@   establishes[C01,C02] result
+//@   assigns nothing
 //@ func NewSimpleStrategy
 //@   requires fits_no_overflow: limit <= MaxInt32
 //@   ensures[C01] fresh_gate: fresh(result) && *result.limit == max(1, limit) && *result.inFlight == 0
 //@   establishes[C01,C02] result
+//@   assigns nothing
 //@ func NewSimpleStrategyWithMetricRegistry
 //@   requires fits_no_overflow: limit <= MaxInt32 && registry != nil
 //@   ensures[C01] fresh_gate: fresh(result) && *result.limit == max(1, limit) && *result.inFlight == 0 && result.metricListener != nil
 //@   ensures[C20] limit_gauge: ncalls("core.MetricRegistry.RegisterGauge") == 1 && callarg("core.MetricRegistry.RegisterGauge", 0, 0) == "limit" && isfunc(*captured(callarg("core.MetricRegistry.RegisterGauge", 0, 1), "core.NewIntMetricSupplierWrapper$1", 0), "(*strategy.SimpleStrategy).GetLimit$bound") && captured(*captured(callarg("core.MetricRegistry.RegisterGauge", 0, 1), "core.NewIntMetricSupplierWrapper$1", 0), "(*strategy.SimpleStrategy).GetLimit$bound", 0) == result
 //@   establishes[C01,C02] result
+//@   assigns nothing
 
 // ---------------------------------------------------------------------------------------------
 // Lemma clients (zz_lemmas_verif.go): a granted token, released, gives back exactly what it took.
@@ -432,6 +438,7 @@ package strategy
 //@   requires registry_ok: registry != nil
 //@   establishes[C03] result
 //@   ensures[C03] fields: result != nil && fresh(result) && result.percent == percent && result.limit == max(1, limit) && result.busy == 0 && result.name == name
+//@   assigns nothing
 
 //@ func NewLookupPartitionStrategyWithMetricRegistry
 //@   requires cfg: limit >= 1 && registry != nil
@@ -442,12 +449,14 @@ package strategy
 //@   ensures[C03] fields: ret0 != nil ==> ret1 == nil && fresh(ret0) && ret0.partitions == partitions && ret0.limit == limit && ret0.busy == 0
 //@   ensures[C03] rejects_empty: len(partitions) == 0 ==> ret0 == nil && ret1 != nil
 //@   ensures[C03] unknown_bin_is_fresh: ret0 != nil ==> fresh(ret0.unknownPartition)
+//@   assigns all strategy.LookupPartition.limit
 
 //@ func NewPredicatePartitionWithMetricRegistry
 //@   requires pct: isFinite(percent) && 0.0 <= percent && percent <= 1.0
 //@   requires registry_ok: registry != nil
 //@   establishes[C03] result
 //@   ensures[C03] fields: result != nil && fresh(result) && result.percent == percent && result.limit == 1 && result.busy == 0 && result.name == name && result.predicate == predicateFunc
+//@   assigns nothing
 
 //@ func NewPredicatePartitionStrategyWithMetricRegistry
 //@   requires cfg: limit >= 1 && registry != nil
@@ -457,6 +466,7 @@ package strategy
 //@   establishes[C03,C05] ret0 != nil ==> ret0
 //@   ensures[C03] fields: ret0 != nil ==> ret1 == nil && fresh(ret0) && ret0.partitions == partitions && ret0.limit == limit && ret0.busy == 0
 //@   ensures[C03] rejects_empty: len(partitions) == 0 ==> ret0 == nil && ret1 != nil
+//@   assigns all strategy.PredicatePartition.limit
 
 // Remaining public operations of the predicate strategy.
 //@ func (*PredicatePartitionStrategy).RemovePartitionsMatching
